@@ -155,6 +155,13 @@ class Graph(object):
         self.dense_bits = 0 if t is None else [0, 0, 3, 4, 6][t.draw(5)]
         self.free_regions = [(0, 0)]
         self.high_keys = t is not None and t.draw(4) == 0
+        # how readily a net brings in a new vertex: low = many nets among few
+        # vertices (many keys sharing each route: the covering minimiser's
+        # merges then overlap)
+        self.new_p = 0.5 if t is None else [0.5, 0.5, 0.5, 0.1, 0.25][
+            t.draw(5)]
+        if self.dense_bits in (3, 4) and t is not None and t.draw(2):
+            self.new_p = 0.1
         self.vertices_resources = collections.OrderedDict()
         self.nets = []
         self.net_keys = collections.OrderedDict()
@@ -209,9 +216,9 @@ def add_net(t, g, par, max_fanout=12):
             return v
         v = vs[t.draw(len(vs))]
         return alias(v) if g.vkind in ("eq", "tuple", "mixed") else v
-    src = pick(0.5)
+    src = pick(g.new_p)
     fan = t.draw_small(max_fanout + 1, 0.6)
-    sinks = [pick(0.5) for _ in range(fan)]
+    sinks = [pick(g.new_p) for _ in range(fan)]
     if sinks and t.draw(6) == 0:
         sinks.append(sinks[0])              # repeated sink
     if t.draw(8) == 0:
